@@ -15,7 +15,7 @@ use std::sync::atomic::{AtomicBool, Ordering};
 
 pub struct Checking;
 
-const CAP: usize = 1 << 16;
+const CAP: usize = 1 << 20;
 const MASK: usize = CAP - 1;
 
 #[derive(Clone, Copy)]
@@ -78,6 +78,7 @@ struct State {
     log_overflow: bool,
     watch: [Watch; WATCH_CAP],
     watch_n: usize,
+    overflowed: bool,
     /// make the next `n`-th allocation attempt fail (returns null) — allocator-failure scripts
     fail_in: usize,
 }
@@ -97,6 +98,7 @@ static mut ST: State = State {
     watch: [Watch { ptr: 0, id: 0, freed: 0, reported: 0, poisoned: false }; WATCH_CAP],
     watch_n: 0,
     fail_in: 0,
+    overflowed: false,
 };
 
 fn with<R>(f: impl FnOnce(&mut State) -> R) -> R {
@@ -128,7 +130,12 @@ impl State {
         }
     }
     fn insert(&mut self, ptr: usize, size: usize, align: usize) {
-        assert!(self.live_blocks < CAP / 2, "checking allocator table full");
+        if self.live_blocks >= CAP / 2 {
+            // never panic inside the allocator (the lock is held): stop tracking new blocks; frees of
+            // untracked blocks are then forwarded unchecked (`overflowed`)
+            self.overflowed = true;
+            return;
+        }
         let mut i = hash(ptr);
         while self.table[i].ptr != 0 {
             i = (i + 1) & MASK;
@@ -235,6 +242,7 @@ unsafe impl GlobalAlloc for Checking {
         let ok = with(|s| {
             s.push_log(Call { kind: Kind::Dealloc, ptr: p as usize, size: l.size(), align: l.align(), new_size: 0, ret: 0 });
             match s.find(p as usize) {
+                None if s.overflowed => true,
                 None => {
                     s.error("dealloc-not-live", p as usize, l, None);
                     false
@@ -257,6 +265,7 @@ unsafe impl GlobalAlloc for Checking {
 
     unsafe fn realloc(&self, p: *mut u8, l: Layout, new_size: usize) -> *mut u8 {
         let live = with(|s| match s.find(p as usize) {
+            None if s.overflowed => None,
             None => {
                 s.error("realloc-not-live", p as usize, l, None);
                 None
@@ -275,6 +284,9 @@ unsafe impl GlobalAlloc for Checking {
                 s.push_log(Call { kind: Kind::Realloc, ptr: p as usize, size: l.size(), align: l.align(), new_size, ret: 0 });
             });
             return std::ptr::null_mut();
+        }
+        if live.is_none() && with(|s| s.overflowed) {
+            return unsafe { System.realloc(p, l, new_size) };
         }
         if live.is_none() || with(|s| s.should_fail()) {
             with(|s| s.push_log(Call { kind: Kind::Realloc, ptr: p as usize, size: l.size(), align: l.align(), new_size, ret: 0 }));
